@@ -106,5 +106,43 @@ func genConnTable() {
 			fatal("duration constant not found:", k)
 		}
 	}
+	// CloseConnection: the whole body is one call <recv>.<field>.Do(func() {...}) on a field of
+	// type sync.Once of ShipConnection - the run-at-most-once guard the model's flag "once" stands for
+	once := false
+	onceFields := map[string]bool{}
+	for _, f := range ship.files {
+		ast.Inspect(f, func(n ast.Node) bool {
+			ts, ok := n.(*ast.TypeSpec)
+			if !ok || ts.Name.Name != "ShipConnection" {
+				return true
+			}
+			if st, ok := ts.Type.(*ast.StructType); ok {
+				for _, fl := range st.Fields.List {
+					if sel, ok := fl.Type.(*ast.SelectorExpr); ok && sel.Sel.Name == "Once" {
+						if x, ok := sel.X.(*ast.Ident); ok && x.Name == "sync" {
+							for _, nm := range fl.Names {
+								onceFields[nm.Name] = true
+							}
+						}
+					}
+				}
+			}
+			return false
+		})
+	}
+	if cd := ship.funcDecl("ShipConnection", "CloseConnection"); cd != nil && cd.Body != nil && len(cd.Body.List) == 1 {
+		if es, ok := cd.Body.List[0].(*ast.ExprStmt); ok {
+			if ce, ok := es.X.(*ast.CallExpr); ok && len(ce.Args) == 1 {
+				if sel, ok := ce.Fun.(*ast.SelectorExpr); ok && sel.Sel.Name == "Do" {
+					if in, ok := sel.X.(*ast.SelectorExpr); ok && onceFields[in.Sel.Name] {
+						if _, ok := ce.Args[0].(*ast.FuncLit); ok {
+							once = true
+						}
+					}
+				}
+			}
+		}
+	}
+	fmt.Fprintf(&sb, "\n(* ShipConnection.CloseConnection: the whole body runs inside sync.Once.Do *)\nDefinition close_body_once : bool := %v.\n", once)
 	writeIfChanged("ConnTable.v", sb.String())
 }
